@@ -65,5 +65,23 @@ MANIFEST_TEXT.update({
     },
 })
 
+MANIFEST_TEXT.update({
+    "C16": {
+        "level": "Bounded model checking: real values with symbolic contents are reinterpreted as C-view structs (generated from the "
+                 "published header where it declares the type) and driven purely through fields and function pointers; effects "
+                 "(drop counters, strong counts, contents, capacities, tags) must equal the Rust operation's.",
+        "note": "Dev-profile layout only; C++ header and C snippets not covered here.",
+        "technique": BMC + "; C-view reinterpretation against the published header",
+    },
+    "C05": {
+        "level": "Narrowed claim, bounded model checking of a two-role model: plugin-fabricated values over non-heap memory with the "
+                 "plugin's own function pointers are only ever released / cloned / grown through those pointers, exactly the "
+                 "expected number of times with the right arguments; any host-allocator touch fails CBMC's allocator preconditions.",
+        "note": "Cross-compiler / cross-build / dynamic-loading part of the property is outside what solver-based checking of one "
+                "build can encode and is NOT claimed.",
+        "technique": BMC + "; two-role (plugin/host) model with non-heap plugin memory",
+    },
+})
+
 NOT_YET = {k: "check under construction at this commit (planned in DESIGN.md section 5); not claimed yet" for k in
-           ["C01", "C02", "C04", "C05", "C06", "C07", "C08", "C09", "C16", "C17", "C20"]}
+           ["C01", "C02", "C04", "C06", "C07", "C08", "C09", "C17", "C20"]}
